@@ -40,6 +40,8 @@ def tsum(x, **kw):
 
 def add(a, b, **kw):
     _jitter(a)
+    if isinstance(a, (tuple, list)):        # pairs of tuples (partition of partitions): join them
+        return tuple(a) + tuple(b) + ((_kw(kw),) if kw else ())
     return a + b + _kw(kw)
 
 
